@@ -273,6 +273,9 @@ class VariantInterval(AbstractFeatureInterval):
             new_loc = self._lift_over_chromosome_location_compound_interval(location)
         else:
             raise NotImplementedError("Location type {} not supported".format(str(type(location))))
+        # the variant deletes the location entirely
+        if new_loc is EmptyLocation():
+            return new_loc
         # this lifts the chromosome coordinates back onto chunk coordinates, if we are chunk-relative
         if self.has_sequence:
             return self.liftover_location_to_seq_chunk_parent(new_loc, self.parent_with_alternative_sequence)
@@ -533,14 +536,19 @@ class VariantIntervalCollection(AbstractFeatureIntervalCollection):
             location = location.lift_over_to_first_ancestor_of_type(SequenceType.CHROMOSOME)
 
         # lift over sequenceless to avoid overhead
-        if isinstance(location, SingleInterval):
-            for variant in self.variant_intervals:
-                location = variant._lift_over_chromosome_location_single_interval(location)
-        elif isinstance(location, CompoundInterval):
-            for variant in self.variant_intervals:
-                location = variant._lift_over_chromosome_location_compound_interval(location)
-        else:
+        if not isinstance(location, (SingleInterval, CompoundInterval)):
             raise ValueError("Invalid Location type passed")
+        for variant in self.variant_intervals:
+            # the type can change along the way: blocks may be deleted or merged
+            if isinstance(location, SingleInterval):
+                location = variant._lift_over_chromosome_location_single_interval(location)
+            elif isinstance(location, CompoundInterval):
+                location = variant._lift_over_chromosome_location_compound_interval(location)
+            else:
+                # the variants applied so far deleted the location entirely
+                return EmptyLocation()
+        if location is EmptyLocation():
+            return location
         if self.has_sequence:
             return self.liftover_location_to_seq_chunk_parent(location, self.parent_with_alternative_sequence)
         else:
